@@ -1,10 +1,13 @@
 import MindsVerif.Model.Walk
 import MindsVerif.Model.Params
+import MindsVerif.Model.WalkHist
 import MindsVerif.Gen.Schema
 /-! Line protocol driver for the walker model instantiated with the probed schema.
 input : `log | <tree>`            logging callback (never replaces)
         `rep <tag> | <tree>`      the callback returns a fresh leaf (class `Constant`, tag 999999) for the node `tag`
         `rept <tag> | <tree>`     … an empty `Tuple` (tag 999997);  `repf <tag> | <tree>` … a falsy node object (tag 999998)
+        `raise <tag> | <tree>`    a looking callback that raises at the node `tag`: the calls up to that node, `r=!` when the
+                                  exception comes out of the walk (`Walk.abortLog`), the tree as it was
         `find | <tree>`           get_query_params: visits of the walk + number and textual order of the parameters
         `fill <n> | <tree>`       fill_query_params with the values 1000000 … 1000000+n-1
         `seq <op,op,…> | <tree>`  prepared-statement calls on a fresh planner: `p` prepare (a fresh copy of the tree),
@@ -90,6 +93,13 @@ def handle (line : String) : String :=
         | some x =>
           let σf := σ ++ [⟨[], [], [], true⟩]
           showOut (walk σf (cbAt x (.mk σ.length 0 999998 [])) t ()) ""
+        | none => "error: bad tag"
+      | ["raise", x] =>
+        match x.toNat? with
+        | some x =>
+          let o := walk σ (cbLog) t ()
+          " ".intercalate ((abortLog x o.log).map showV) ++ " ; " ++ showN o.self ++ " ; r="
+            ++ (if aborts x o.log then "!" else "-") ++ " "
         | none => "error: bad tag"
       | ["find"] =>
         let o := walk σ (cbFind paramC) t []
